@@ -4,6 +4,7 @@ package main
 
 import (
 	"fmt"
+	"reflect"
 	"strconv"
 	"strings"
 
@@ -11,6 +12,7 @@ import (
 	"github.com/llir/llvm/ir"
 	"github.com/llir/llvm/ir/constant"
 	"github.com/llir/llvm/ir/enum"
+	"github.com/llir/llvm/ir/metadata"
 	"github.com/llir/llvm/ir/types"
 	"github.com/llir/llvm/ir/value"
 )
@@ -93,7 +95,18 @@ type c3inst struct {
 	dests   []c3ident
 	cleanup bool
 	clauses []c3case
+	// `M<hexname>=<id>&…`: the metadata attachments `, !name !id` at the end of the line
+	mds []c3md
 }
+
+type c3md struct {
+	name string
+	id   int64
+}
+
+// the metadata definitions of the module under construction by ID (whole.*): an attachment refers to the definition itself; a function built on its own
+// (core3.*) gets a stand-in node that prints as `!id`
+var c3MdDefs map[int64]metadata.Definition
 
 type c3case struct {
 	ty     types.Type
@@ -121,6 +134,15 @@ func c3Inst(named map[string]*types.StructType, s string) c3inst {
 		case 'D':
 			g := strings.SplitN(x[1:], "~", 2)
 			in.dests = []c3ident{c3Ident(g[0]), c3Ident(g[1])}
+		case 'M':
+			for _, ms := range strings.Split(x[1:], "&") {
+				g := strings.SplitN(ms, "=", 2)
+				id, err := strconv.ParseInt(g[1], 10, 64)
+				if err != nil {
+					panic("harness: bad attachment descriptor " + x)
+				}
+				in.mds = append(in.mds, c3md{string(unhexArg(g[0])), id})
+			}
 		case 'C':
 			in.cleanup = x[1] == '1'
 			if len(x) > 2 {
@@ -850,6 +872,17 @@ func core3Prepare(named map[string]*types.StructType, a []string) (*ir.Func, fun
 				g.Type()
 			}
 			c3ApplyFlags(p.inst, p.in.flags)
+			if len(p.in.mds) > 0 {
+				var atts []*metadata.Attachment
+				for _, md := range p.in.mds {
+					var node metadata.MDNode = &metadata.Tuple{MetadataID: metadata.MetadataID(md.id)}
+					if d, ok := c3MdDefs[md.id]; ok {
+						node = d.(metadata.MDNode)
+					}
+					atts = append(atts, &metadata.Attachment{Name: md.name, Node: node})
+				}
+				reflect.ValueOf(p.inst).Elem().FieldByName("Metadata").Set(reflect.ValueOf(atts))
+			}
 		}
 	}
 }
